@@ -2,10 +2,11 @@
 import itertools, random, re
 from vlib import Case
 
-NODE_SLOTS = list(range(0, 6))
-EDGE_SLOTS = [6, 7]
-PATH_SLOT, VEC_SLOT, GRAPH_SLOT = 8, 9, 10
-ALL_SLOTS = list(range(0, 11))
+NODE_SLOTS = list(range(0, 12))
+EDGE_SLOTS = [12, 13]
+PATH_SLOT, VEC_SLOT, GRAPH_SLOT = 14, 15, 16
+CLONE_SLOT = 11
+ALL_SLOTS = list(range(0, 17))
 
 SHAPES = {
     "single": (1, []),
@@ -30,21 +31,21 @@ def gen_enumerated(cls, rng, tier):
                 pre += ["ocon %d %d %d" % (u, v, 50 + j) for j, (u, v) in enumerate(edges)]
                 live = list(range(n))
                 if "clone" in extras:
-                    pre.append("oclone 5 0")
-                    live.append(5)
+                    pre.append("oclone %d 0" % CLONE_SLOT)
+                    live.append(CLONE_SLOT)
                 if "edge" in extras:
-                    pre.append("oedge 6 0 0")
-                    live.append(6)
+                    pre.append("oedge %d 0 0" % EDGE_SLOTS[0])
+                    live.append(EDGE_SLOTS[0])
                 if "path" in extras:
-                    pre.append("opath 8 0 %d bfs" % (20 + n - 1))
-                    live.append(8)
+                    pre.append("opath %d 0 %d bfs" % (PATH_SLOT, 20 + n - 1))
+                    live.append(PATH_SLOT)
                 if "vec" in extras:
-                    pre.append("onodes 9 0 post")
-                    live.append(9)
+                    pre.append("onodes %d 0 post" % VEC_SLOT)
+                    live.append(VEC_SLOT)
                 if "graph" in extras:
-                    pre.append("ogra 10")
-                    pre += ["ogins 10 %d" % i for i in range(n)]
-                    live.append(10)
+                    pre.append("ogra %d" % GRAPH_SLOT)
+                    pre += ["ogins %d %d" % (GRAPH_SLOT, i) for i in range(n)]
+                    live.append(GRAPH_SLOT)
                 if len(live) <= 4:
                     orders = list(itertools.permutations(live))
                 else:
@@ -57,7 +58,7 @@ def gen_enumerated(cls, rng, tier):
                         remaining.remove(s)
                         # objects still held must stay usable; nodes only reachable through them stay alive
                         for t in remaining:
-                            if t >= 5:
+                            if t >= CLONE_SLOT:
                                 steps.append("ouse %d" % t)
                     steps += ["odrop %d" % s for s in ALL_SLOTS]
                     cases.append(Case("own%s%d" % (cls, idx), cls, steps, dict(kind="enumerated-drop-order", shape=shape, extras=list(extras))))
@@ -69,13 +70,13 @@ def gen_random(cls, rng, count):
     cases = []
     for ci in range(count):
         steps = []
-        n = rng.randint(2, 5)
+        n = rng.randint(2, 5) if ci % 3 else rng.randint(6, 10)
         keys = rng.sample(range(1, 40), n)
         for i in range(n):
             steps.append("onew %d %d %d" % (i, keys[i], 100 + i))
         dropped_any = False
         nexttok = 100 + n
-        for j in range(rng.randint(15, 60)):
+        for j in range(rng.randint(15, 60) if n <= 5 else rng.randint(40, 120)):
             r = rng.random()
             a, b = rng.randrange(n), rng.randrange(n)
             if r < 0.22:
